@@ -24,6 +24,7 @@ func (dm *defaultMkdirerPipeline) mkdir(ctx context.Context, roots <-chan *Node)
 
 	go func() {
 		defer close(errc)
+		defer verifPoint("sink.close", 0, "")
 
 		wg := &sync.WaitGroup{}
 		for range workerMkdirNum {
@@ -38,22 +39,33 @@ func (dm *defaultMkdirerPipeline) mkdir(ctx context.Context, roots <-chan *Node)
 
 func (dm *defaultMkdirerPipeline) worker(ctx context.Context, wg *sync.WaitGroup, roots <-chan *Node, errc chan<- error) {
 	defer wg.Done()
+	vid := verifStart("sink")
+	defer verifPoint("sink.exit", vid, "")
 	for {
+		verifPoint("sink.recv.pre", vid, "")
 		select {
 		case <-ctx.Done():
+			verifPoint("sink.recv.ctx", vid, "")
 			return
 		case root, ok := <-roots:
 			if !ok {
+				verifPoint("sink.recv.closed", vid, "")
 				return
 			}
+			verifPoint("sink.recv.post", vid, verifName(root))
 			if dm.isExistRoot([]*Node{root}) {
+				verifPoint("sink.errsend.pre", vid, verifName(root))
 				errc <- ErrExistPath
+				verifPoint("sink.errsend.post", vid, verifName(root))
 				return
 			}
 			if err := dm.makeDirectoriesAndFiles(root); err != nil {
+				verifPoint("sink.errsend.pre", vid, verifName(root))
 				errc <- err
+				verifPoint("sink.errsend.post", vid, verifName(root))
 				return
 			}
+			verifPoint("sink.done", vid, verifName(root))
 		}
 	}
 }
